@@ -176,7 +176,15 @@ fn run(line: &str) -> String {
         let sy = t.str();
         let name = format!("m{}", i);
         mods.push(MinidumpModule::new(mb, ms as u32, &name));
-        if sy.starts_with("Y|") {
+        if sy.starts_with("T|") {
+            // T|line|line|...  (~ = space): the symbol file after its MODULE line
+            let mut text = format!("MODULE Linux {} 000000000000000000000000000000000 {}\n", cpu_name, name);
+            for l in sy[2..].split('|') {
+                text.push_str(&l.replace('~', " "));
+                text.push('\n');
+            }
+            symbols.insert(name, text);
+        } else if sy.starts_with("Y|") {
             // Y|func_lo|func_size|cfi_lo|cfi_size|init rules (~ = space)|addr=delta rules|...
             let f: Vec<&str> = sy.split('|').collect();
             assert!(f.len() >= 6, "bad sym");
